@@ -39,6 +39,11 @@ def answers():
         '200abc': ([b'HTTP/1.1 200abc x\r\n\r\n'], False), '200.5': ([b'HTTP/1.1 200.5 x\r\n\r\n'], False),
         '200403': ([b'HTTP/1.1 200403 Forbidden\r\n\r\n'], False), '020': ([b'HTTP/1.1 020 x\r\n\r\n'], False), '201': ([b'HTTP/1.1 201 Created\r\n\r\n'], False),
         '101': ([b'HTTP/1.1 101 Switching Protocols\r\nUpgrade: websocket\r\n\r\n'], False),
+        'fullwidth-200': (['HTTP/1.1 \uff12\uff10\uff10 OK\r\n\r\n'.encode('utf-8')], False),
+        'arabic-indic-200': (['HTTP/1.1 \u0662\u0660\u0660 OK\r\n\r\n'.encode('utf-8')], False),
+        'unit-separator-200': ([b'HTTP/1.1\x1f200\x1fOK\r\n\r\n'], False), 'nbsp-200': ([b'HTTP/1.1\xc2\xa0200\xc2\xa0OK\r\n\r\n'], False),
+        'latin1-nbsp-200': ([b'HTTP/1.1\xa0200\xa0OK\r\n\r\n'], False), 'plus-200': ([b'HTTP/1.1 +200 OK\r\n\r\n'], False),
+        'underscore-2_00': ([b'HTTP/1.1 2_00 OK\r\n\r\n'], False), 'zero-padded-0200': ([b'HTTP/1.1 0200 OK\r\n\r\n'], False),
         'garbage': ([b'\x16\x03\x01\x00\x02garbage\r\n\r\n'], False), 'no-status': ([b'\r\n\r\n'], False),
         'unterminated-eof': ([b'HTTP/1.1 200 OK\r\nX: ', W.Eof()], False), 'eof': ([W.Eof()], False), 'err': ([W.Err()], False),
         'silence': ([W.Silence()], False), 'partial-then-timeout': ([b'HTTP/1.1 200 Connection established\r\n', W.Silence()], False),
